@@ -427,6 +427,11 @@ pub struct SeqRun {
     pub inconclusive: Option<String>,
     /// guest clusters released by discard/cow since the last flush: (guest cluster, host offset)
     pub released: Vec<(usize, u64)>,
+    /// host clusters (indices) of compressed clusters that have been overwritten
+    pub replaced_comp_hosts: std::collections::BTreeSet<u64>,
+    /// host clusters (indices) released by discard
+    pub discarded_hosts: std::collections::BTreeSet<u64>,
+    pub truths: Vec<Option<Truth>>,
 }
 
 fn cluster_tags(model: &Model, g: usize) -> Vec<String> {
@@ -473,6 +478,9 @@ pub fn run_seq(case: &SeqCase, cfg: &SeqCfg) -> SeqRun {
         violation: None,
         inconclusive: None,
         released: vec![],
+        replaced_comp_hosts: Default::default(),
+        discarded_hosts: Default::default(),
+        truths: vec![],
     };
     let layers = match build_layers(&case.layers) {
         Ok(l) => l,
@@ -493,6 +501,7 @@ pub fn run_seq(case: &SeqCase, cfg: &SeqCfg) -> SeqRun {
         world.0.borrow_mut().faults = f.clone();
     }
     run.model = Model::new(&case.layers, &layers.truths);
+    run.truths = layers.truths.clone();
     run.stats.host_len_start = world.file_len(0);
     if let Err(v) = run_seq_inner(case, cfg, &mut run) {
         run.violation = Some(v);
@@ -615,6 +624,18 @@ fn run_seq_inner(case: &SeqCase, cfg: &SeqCfg, run: &mut SeqRun) -> Result<(), V
                         }
                     }
                 }
+                if let Some(Some(t)) = run.truths.first() {
+                    let cbits = cs.trailing_zeros();
+                    for g in first..=last {
+                        if run.model.kind[g] == MKind::Compressed {
+                            if let (Some(o), Some(l)) = (t.host[g], t.comp_len[g]) {
+                                for c in crate::spec::layout::compressed_host_clusters(o, l, cbits) {
+                                    run.replaced_comp_hosts.insert(c);
+                                }
+                            }
+                        }
+                    }
+                }
                 run.model.write(*off, &data);
                 run.stats.writes += 1;
             }
@@ -662,6 +683,19 @@ fn run_seq_inner(case: &SeqCase, cfg: &SeqCfg, run: &mut SeqRun) -> Result<(), V
                 run.stats.reads += 1;
             }
             Op::Discard { off, len } => {
+                if cfg.release_check {
+                    for g in run.model.discard_range(*off, *len) {
+                        if matches!(run.model.kind[g], MKind::Data | MKind::ZeroPrealloc) {
+                            if let Driven::Done(Ok(m)) = drive(&world, &mut sched, dev.get_mapping((g * cs) as u64)) {
+                                if let Some(o) = m.cluster_offset {
+                                    if m.source == MappingSource::DataFile || m.source == MappingSource::Zero {
+                                        run.discarded_hosts.insert(o >> cs.trailing_zeros());
+                                    }
+                                }
+                            }
+                        }
+                    }
+                }
                 let r = driven_violation(drive(&world, &mut sched, dev.discard(*off, *len)), "discard").map_err(|v| v.at(i).tag("discard"))?;
                 if let Err(e) = r {
                     return Err(Violation::new(Rule::DiscardErr, format!("discard(off={off}, len={len}) failed: {e:?}"))
@@ -706,6 +740,9 @@ fn run_seq_inner(case: &SeqCase, cfg: &SeqCfg, run: &mut SeqRun) -> Result<(), V
                     run.stats.flushes += 1;
                     after_flush(case, cfg, run, &world, &mut sched, &dev, &params, i, salt)?;
                 }
+                // requests of the old device are judged by the old block size
+                log_monitors(&world, log_pos, bs, case.read_only, cfg.align, &mut run.stats).map_err(|v| v.at(i))?;
+                log_pos = world.log_len();
                 drop(dev);
                 params = np.clone();
                 dev = open_or_violation(&world, &params, case.read_only, "reopen").map_err(|mut v| {
@@ -717,6 +754,7 @@ fn run_seq_inner(case: &SeqCase, cfg: &SeqCfg, run: &mut SeqRun) -> Result<(), V
         }
         run.stats.ops_done = i + 1;
         // request-log monitors
+        let bs = params.bs();
         log_monitors(&world, log_pos, bs, case.read_only, cfg.align, &mut run.stats).map_err(|v| v.at(i))?;
         {
             let w = world.0.borrow();
@@ -862,16 +900,32 @@ fn after_flush(
         if !rep.corrupt.is_empty() {
             return Err(Violation::new(Rule::CheckCorrupt, format!("after flush_meta: {}", rep.summary(Mode::Strict))).at(op));
         }
-        if !rep.undercounted.is_empty() {
-            return Err(Violation::new(Rule::CheckUnder, format!("after flush_meta: {}", rep.summary(Mode::Strict))).at(op));
+        let tag_of = |c: u64, run: &SeqRun| -> Vec<String> {
+            let mut t = vec![];
+            if run.replaced_comp_hosts.contains(&c) {
+                t.push("replaced_compressed_host".to_string());
+            }
+            if run.discarded_hosts.contains(&c) {
+                t.push("discarded_host".to_string());
+            }
+            t
+        };
+        if let Some(u) = rep.undercounted.first() {
+            let mut v = Violation::new(Rule::CheckUnder, format!("after flush_meta: {}", rep.summary(Mode::Strict))).at(op);
+            v.tags = tag_of(u.0, run);
+            return Err(v);
         }
-        if !rep.leaked.is_empty() {
-            return Err(Violation::new(Rule::CheckLeak, format!("after flush_meta: {}", rep.summary(Mode::Strict))).at(op));
+        if let Some(u) = rep.leaked.first() {
+            let mut v = Violation::new(Rule::CheckLeak, format!("after flush_meta: {}", rep.summary(Mode::Strict))).at(op);
+            v.tags = tag_of(u.0, run);
+            return Err(v);
         }
+        // a discarded host cluster that is referenced again has been re-allocated
+        run.discarded_hosts.retain(|c| !rep.refs.contains_key(c));
     }
     if cfg.reopen_on_flush {
         compare_reopen(case, run, world, dev, params, params, op, salt, Rule::Reopen, false)?;
-        for np in cfg.reopen_params.iter() {
+        for np in cfg.reopen_params.iter().chain(case.reopen_params.iter()) {
             compare_reopen(case, run, world, dev, params, np, op, salt + 1, Rule::Reopen, false)?;
         }
     }
